@@ -1195,12 +1195,11 @@ def main(chk: C.Check, build: C.Build) -> None:
     # 1. programs of the modelled fragment x data x deleted subsets
     cases: list[tuple[list[tuple], dict[str, Any], tuple, bool]] = []
     site = site_programs()
-    if not thorough:
-        site = [x for x in site if r.random() < 0.05]
+    site = [x for x in site if r.random() < (0.5 if thorough else 0.05)]
     for prog, data in site:
         for sub, d in deletions(prog, data, r, 2, 2):
             cases.append((prog, d, sub, False))
-    nprog = 600 if thorough else 100
+    nprog = 450 if thorough else 100
     for i in range(nprog):
         prog = gen_block(r, [], depth=3 if thorough else 2, n=r.choice([1, 2, 2, 3]))
         dels = deletions(prog, BASE, r, 4, 12 if thorough else 3)
@@ -1310,7 +1309,7 @@ def main(chk: C.Check, build: C.Build) -> None:
     # 2. kernel-level tie
     kitems = dunder_cases()
     kall = kernel_cases(r, thorough)
-    kitems += [k for k in kall if r.random() < (0.55 if thorough else 0.09)]
+    kitems += [k for k in kall if r.random() < (0.3 if thorough else 0.09)]
 
     # 3. oracle beyond the model
     nbeyond = 0
